@@ -835,4 +835,144 @@ theorem C29_prefix_storm_example :
     (run (init exCluster exTable) sched).net.length = 0 := by
   decide
 
+/-! ## per-peer timeouts: a slow or failing peer never affects delivery to the others -/
+
+theorem broadcastLoop_map_fst (self k : Nat) (beh : Nat → PeerBeh) (c : Int) (pid : Option Nat) (l : List Row) :
+    (broadcastLoop self k beh c pid l).map (·.1) = l.map (fun p => sendCacheFlush self k p c originHopCount pid) := by
+  induction l with
+  | nil => rfl
+  | cons p l ih => simp [broadcastLoop, ih]
+
+/-- **The requests issued do not depend on what any peer does** (answer, error status, hang-up, dead port, answer
+    later than the client timeout): they are those of `broadcastCacheFlush`, the function the N-node composition
+    uses. A request that is not received or not answered is a `drop` step there. -/
+theorem C29_send_outcomes_isolated (self : Nat) (cl : Option Nat) (db : Bool) (t : List Row) (beh : Nat → PeerBeh)
+    (c : Int) (pid : Option Nat) :
+    (broadcastWith self cl db t beh c pid).map (·.1) = broadcastCacheFlush self cl db t c pid := by
+  unfold broadcastWith broadcastCacheFlush
+  cases cl with
+  | none => rfl
+  | some k =>
+    cases db
+    · simp
+    · simp [broadcastLoop_map_fst]
+
+theorem purgeNodeWith_map_fst (self : Nat) (cl : Option Nat) (db hook on notify : Bool) (t : List Row)
+    (beh : Nat → PeerBeh) (c : Int) (pid : Option Nat) :
+    (purgeNodeWith self cl db hook on notify t beh c pid).1 = (purgeNode self cl db hook on notify t c pid).1 ∧
+    (purgeNodeWith self cl db hook on notify t beh c pid).2.1 = (purgeNode self cl db hook on notify t c pid).2.1 ∧
+    (purgeNodeWith self cl db hook on notify t beh c pid).2.2.map (·.1) =
+      (purgeNode self cl db hook on notify t c pid).2.2 := by
+  unfold purgeNodeWith purgeNode
+  refine ⟨rfl, rfl, ?_⟩
+  simp only
+  split
+  · exact C29_send_outcomes_isolated ..
+  · rfl
+
+theorem receivedOf_loop_absent (self k : Nat) (beh : Nat → PeerBeh) (c : Int) (pid : Option Nat) (l : List Row)
+    (p : Nat) (hp : p ∉ l.map Row.id) :
+    (receivedOf (broadcastLoop self k beh c pid l)).filter (fun m => m.dest == p) = [] := by
+  induction l with
+  | nil => rfl
+  | cons q l ih =>
+    simp only [List.map_cons, List.mem_cons, not_or] at hp
+    have ih := ih hp.2
+    have hq : (q.id == p) = false := by simpa using fun h => hp.1 h.symm
+    unfold receivedOf at ih ⊢
+    simp only [broadcastLoop, List.filter_cons]
+    split
+    · simp only [List.map_cons, List.filter_cons, sendCacheFlush, hq]
+      simpa using ih
+    · exact ih
+
+theorem receivedOf_loop_once (self k : Nat) (beh : Nat → PeerBeh) (c : Int) (pid : Option Nat) (l : List Row)
+    (hnd : (l.map Row.id).Nodup) (r : Row) (hr : r ∈ l) (hrec : (sendResult (beh r.id)).received = true) :
+    ((receivedOf (broadcastLoop self k beh c pid l)).filter (fun m => m.dest == r.id)).length = 1 := by
+  induction l with
+  | nil => simp at hr
+  | cons q l ih =>
+    have hc := List.nodup_cons.1 (by simpa using hnd : (q.id :: l.map Row.id).Nodup)
+    by_cases hq : q.id = r.id
+    · have habs := receivedOf_loop_absent self k beh c pid l r.id (hq ▸ hc.1)
+      unfold receivedOf at habs ⊢
+      simp only [broadcastLoop, List.filter_cons, hq, hrec, if_true, List.map_cons, sendCacheFlush, beq_self_eq_true,
+        List.length_cons]
+      rw [habs]; rfl
+    · have hr' : r ∈ l := by
+        rcases List.mem_cons.1 hr with h | h
+        · exact absurd (h ▸ rfl) hq
+        · exact h
+      have ih := ih hc.2 hr'
+      have hq' : (q.id == r.id) = false := by simpa using hq
+      unfold receivedOf at ih ⊢
+      simp only [broadcastLoop, List.filter_cons]
+      split
+      · simp only [List.map_cons, List.filter_cons, sendCacheFlush, hq']
+        simpa using ih
+      · exact ih
+
+/-- **C29_slow_peer_isolated.** With a primary key on node_id: an active peer whose endpoint receives requests at all
+    (it may answer, answer an error, hang up, or answer after the client timeout) receives EXACTLY ONE request for a
+    purge — whatever every other peer does, in particular however long the peers before it in join order hold
+    their requests. (`beh` is universally quantified: nothing is assumed about the others.) -/
+theorem C29_slow_peer_isolated (self k : Nat) (t : List Row) (beh : Nat → PeerBeh) (c : Int) (pid : Option Nat)
+    (hnd : (t.map Row.id).Nodup) (p : Nat) (hp : IsActivePeer self k t p)
+    (hrec : (sendResult (beh p)).received = true) :
+    ((receivedOf (purgeNodeWith self (some k) true true true true t beh c pid).2.2).filter
+      (fun m => m.dest == p)).length = 1 := by
+  obtain ⟨r, hr, rfl, hn, ha, hi⟩ := hp
+  have hmem : r ∈ listActiveMembers self k t := mem_listActiveMembers.2 ⟨hr, hn, ha, hi⟩
+  have hsub : (listActiveMembers self k t).Sublist t := (List.filter_sublist).trans List.filter_sublist
+  have := receivedOf_loop_once self k beh c pid _ ((hsub.map Row.id).nodup hnd) r hmem hrec
+  simpa [purgeNodeWith, cachePurge, broadcastWith] using this
+
+/-- every endpoint except a dead port receives the request -/
+theorem sendResult_received (b : PeerBeh) : (sendResult b).received = true ↔ b ≠ .unreachable := by
+  cases b with
+  | answers st lat => simp only [sendResult]; split <;> simp
+  | hangsUp => simp [sendResult]
+  | unreachable => simp [sendResult]
+
+theorem sendResult_took_le (b : PeerBeh) : (sendResult b).tookMs ≤ clientTimeoutMs := by
+  cases b with
+  | answers st lat => simp only [sendResult]; split <;> simp <;> omega
+  | hangsUp => simp [sendResult]
+  | unreachable => simp [sendResult]
+
+theorem elapsed_loop_le (self k : Nat) (beh : Nat → PeerBeh) (c : Int) (pid : Option Nat) (l : List Row) :
+    elapsedMs (broadcastLoop self k beh c pid l) ≤ clientTimeoutMs * l.length := by
+  induction l with
+  | nil => simp [elapsedMs, broadcastLoop]
+  | cons q l ih =>
+    have h := sendResult_took_le (beh q.id)
+    unfold elapsedMs at ih ⊢
+    simp only [broadcastLoop, List.map_cons, List.sum_cons, List.length_cons, Nat.mul_succ]
+    omega
+
+/-- the price of per-peer timeouts: the broadcast goroutine is busy for at most 5 s per peer -/
+theorem C29_broadcast_time_bounded (self : Nat) (cl : Option Nat) (db : Bool) (t : List Row) (beh : Nat → PeerBeh)
+    (c : Int) (pid : Option Nat) :
+    elapsedMs (broadcastWith self cl db t beh c pid) ≤ clientTimeoutMs * peerCount self t := by
+  unfold broadcastWith
+  cases cl with
+  | none => simp [elapsedMs]
+  | some k =>
+    cases db
+    · simp [elapsedMs]
+    · simp only [Bool.not_true, Bool.false_eq_true, if_false]
+      exact Nat.le_trans (elapsed_loop_le ..) (Nat.mul_le_mul_left _ (listActiveMembers_length_le self k t))
+
+/-- non-vacuity: node 0 purges; peer 1 (first in join order) holds its request for 9 s, peer 2 answers 500, peer 3 is a
+    dead port, peers 4 and 5 are healthy: 1, 2, 4, 5 each receive exactly one request, 3 none; 5 s are spent. -/
+example :
+    let t : List Row := [⟨1, 7, true⟩, ⟨2, 7, true⟩, ⟨0, 7, true⟩, ⟨3, 7, true⟩, ⟨4, 7, true⟩, ⟨5, 7, true⟩]
+    let beh : Nat → PeerBeh := fun i =>
+      if i = 1 then .answers 200 9000 else if i = 2 then .answers 500 3 else if i = 3 then .unreachable
+      else .answers 200 1
+    let r := (purgeNodeWith 0 (some 7) true true true true t beh 5 none).2.2
+    (receivedOf r).map (·.dest) = [1, 2, 4, 5] ∧ elapsedMs r = 5005 ∧
+      IsActivePeer 0 7 t 4 ∧ (sendResult (beh 4)).received = true ∧ (t.map Row.id).Nodup := by
+  refine ⟨by decide, by decide, ⟨⟨4, 7, true⟩, by decide, rfl, rfl, rfl, by decide⟩, by decide, by decide⟩
+
 end EgoVerif.C29
